@@ -67,6 +67,9 @@ def shards(tier):
             out.append({"kind": "binary", "dim": dim, "sys": list(sysA)})
     for sysA in L.SYSTEMS[4]:
         out.append({"kind": "taustored", "dim": 4, "sys": list(sysA)})
+    for dim in (2, 3, 4):
+        for sysA in L.SYSTEMS[dim]:
+            out.append({"kind": "derived", "dim": dim, "sys": list(sysA)})
     return out
 
 
@@ -207,6 +210,91 @@ def unary_checks(res, v: Vec, system, tier):
     res.sample(case) if v.name in ("light0", "zero") and system == L.SYSTEMS[dim][-1] else None
 
 
+def _derived_ops(dim, system):
+    ops = [("scale(-0.5)", lambda v, p: v.scale(-0.5)), ("scale(2)", lambda v, p: v.scale(2.0)), ("neg", lambda v, p: -v), ("*(-3)", lambda v, p: v * -3.0), ("/(-2)", lambda v, p: v / -2.0),
+           ("rotateZ(4)", lambda v, p: v.rotateZ(4.0)), ("rotateZ(-7)", lambda v, p: v.rotateZ(-7.0)), ("add", lambda v, p: v.add(p)), ("subtract", lambda v, p: v.subtract(p)),
+           ("p.subtract(v)", lambda v, p: p.subtract(v)), ("unit", lambda v, p: v.unit()), ("to_own", lambda v, p: getattr(v, "to_" + "".join(L.field_names(system)))()),
+           ("to_other_azimuth", lambda v, p: getattr(v, "to_" + "".join(L.field_names((("rhophi" if system[0] == "xy" else "xy"),) + tuple(system[1:]))))())]
+    if dim >= 3:
+        ops += [("rotateX(-2.5)", lambda v, p: v.rotateX(-2.5)), ("rotateY(4)", lambda v, p: v.rotateY(4.0)), ("rotate_euler", lambda v, p: v.rotate_euler(0.3125, -2.5, 4.0, "yzx")),
+                ("rotate_axis", lambda v, p: v.rotate_axis(p.to_Vector3D(), 4.0)), ("cross", lambda v, p: v.to_Vector3D().cross(p.to_Vector3D()))]
+        for lon in ("z", "theta", "eta"):
+            ops.append((f"to_*{lon}*", lambda v, p, lon=lon: getattr(v, "to_" + "".join(L.field_names((system[0], lon) + tuple(system[2:]))))()))
+    if dim == 4:
+        ops += [("boostX(0.5)", lambda v, p: v.boostX(0.5)), ("boostZ(-0.25)", lambda v, p: v.boostZ(-0.25)), ("boostY(gamma=-2.5)", lambda v, p: v.boostY(gamma=-2.5)),
+                ("boost_p4", lambda v, p: v.boost_p4(p)), ("to_*tau", lambda v, p: getattr(v, "to_" + "".join(L.field_names(tuple(system[:2]) + ("tau",))))()),
+                ("to_*t", lambda v, p: getattr(v, "to_" + "".join(L.field_names(tuple(system[:2]) + ("t",))))())]
+    return ops
+
+
+def derived_checks(res, v: Vec, system, tier):
+    """The range and sign clauses hold for the vectors the library *returns* too: after each vector-valued operation the
+    result's own accessors (and its stored rho / phi / theta) are checked, on the float64 object and NumPy backends."""
+    dim = v.dim
+    obj, st = _float_obj(v, system)
+    if obj is None:
+        res.count("operand_not_representable")
+        return
+    partner = [p for p in A.partners(dim, tier) if not p.has("spacelike") and not p.has("negtime")][0]
+    pobj, _ = _float_obj(partner, system)
+    arr = _np_single(v, system)
+    parr = _np_single(partner, system)
+    if pobj is None or parr is None:
+        return
+    for bname, o, po, conv in (("OBJ", obj, pobj, lambda x: float(x)), ("NP", arr, parr, lambda x: float(np.asarray(x).reshape(-1)[0]))):
+        for oname, f in _derived_ops(dim, system):
+            res.states += 1
+            res.transitions += 1
+            case = {"kind": "derived", "v": list(v.comps), "sys": list(system), "name": v.name, "op": oname, "backend": bname}
+            try:
+                r = f(o, po)
+            except Exception as e:  # noqa: BLE001
+                res.count("derived_operation_raised")  # singular inputs etc. are other properties' subject
+                continue
+
+            def chk(clause, acc, ok, msg):
+                res.traces += 1
+                res.evaluations += 1
+                if ok:
+                    res.nontrivial += 1
+                else:
+                    _viol(res, clause, f"{oname}->{acc}", system, bname, f"after {oname}: {msg}", case)
+
+            def get(name):
+                res.transitions += 1
+                return conv(getattr(r, name))
+
+            try:
+                rdim = 2 + hasattr(r, "longitudinal") + hasattr(r, "temporal")
+                rho, phi = get("rho"), get("phi")
+                if math.isnan(rho) or math.isnan(phi):
+                    res.count("derived_result_nan")
+                    continue
+                if v.has("wildphi") and system[0] == "rhophi":
+                    res.count("stored_phi_outside_range_is_returned_as_stored")  # operations that pass the azimuth through keep what the caller stored
+                else:
+                    chk("range", "phi", -PI <= phi <= PI, f"phi = {phi!r} outside [-pi, pi]")
+                chk("nonneg", "rho", rho >= 0, f"rho = {rho!r} is negative")
+                if rdim >= 3:
+                    th, z, mag = get("theta"), get("z"), get("mag")
+                    if not (math.isnan(th) or math.isnan(z)):
+                        chk("range", "theta", 0 <= th <= PI, f"theta = {th!r} outside [0, pi]")
+                        chk("nonneg", "mag", mag >= 0, f"mag = {mag!r} is negative")
+                        if abs(z) > 1e-9 * max(1.0, mag) and rho > 1e-9 * max(1.0, mag):
+                            for acc in ("costheta", "cottheta"):
+                                x = get(acc)
+                                chk("sign", acc, (x > 0) == (z > 0) and x != 0, f"{acc} = {x!r} does not have the sign of z = {z!r}")
+                            eta = get("eta")
+                            chk("sign", "eta", (eta > 0) == (z > 0), f"eta = {eta!r} does not have the sign of z = {z!r}")
+                if rdim == 4:
+                    rs = L.system_of(r)[0] if bname == "OBJ" else B.system_of_fields(r.dtype.names)
+                    if rs[2] == "tau":
+                        tt = get("t")
+                        chk("t_from_tau", "t", tt >= 0, f"t = {tt!r} derived from the result's tau is negative or NaN")
+            except Exception as e:  # noqa: BLE001
+                _viol(res, "raises", f"{oname}->accessor", system, bname, f"after {oname}: {type(e).__name__}: {e}", case)
+
+
 def _angle_pairs(a: Vec, tier):
     """Second operands with cosine in {+-1, 0, +-(1-2^-20), +-2^-20} relative to `a`, plus generic."""
     c = a.comps[:3] if a.dim >= 3 else a.comps
@@ -345,6 +433,13 @@ def run_shard(shard, tier):
         for v in _vectors(dim, tier):
             unary_checks(res, v, system, tier)
         res.sample({"kind": "unary", "sys": list(system), "operands": len(_vectors(dim, tier)), "example": list(_vectors(dim, tier)[-1].comps)})
+    elif shard["kind"] == "derived":
+        vs = [v for v in _vectors(dim, tier) if not v.has("boundary") and not v.has("near_axis") and not v.has("fast")]
+        if tier != "thorough":
+            vs = A.representatives(vs, 6)
+        for v in vs:
+            derived_checks(res, v, system, tier)
+        res.sample({"kind": "derived", "sys": list(system), "operands": len(vs), "operations": [n for n, _ in _derived_ops(dim, system)]})
     elif shard["kind"] == "binary":
         vs = [v for v in _vectors(dim, tier) if not v.has("near_axis")]
         if tier != "thorough":
@@ -361,6 +456,10 @@ def replay(case):
     if case["kind"] == "unary":
         v = Vec(case.get("name", "v"), case["v"], _tags_for(case["v"]))
         unary_checks(res, v, tuple(case["sys"]), "quick")
+    elif case["kind"] == "derived":
+        tags = {"wildphi"} if str(case.get("name", "")).startswith("wild") else set()
+        v = Vec(case.get("name", "v"), case["v"], tags, phi_turns={"wild+": 1, "wild-": -1}.get(case.get("name"), 0))
+        derived_checks(res, v, tuple(case["sys"]), "thorough")
     elif case["kind"] == "binary":
         a = Vec("a", case["a"], set())
         binary_checks(res, a, tuple(case["sysA"]), "thorough")
